@@ -426,6 +426,10 @@ type ConcCase struct {
 	// of them runs exactly once and none stays subscribed - events of other
 	// types must not have used them up.
 	Late int `json:"late,omitempty"`
+	// Readers > 0: that many goroutines poll HandlerCount / HasHandlers of
+	// the published types for as long as the publishers run (a metrics
+	// scraper).  Reading the registry must not change what it holds.
+	Readers int `json:"readers,omitempty"`
 }
 
 // EvD is only published after the concurrent phase (see ConcCase.Late).
@@ -470,6 +474,9 @@ func runConc(c *ConcCase) *vkit.Outcome {
 		o.Class("two_or_more_concurrent_eligible_publishers")
 		if c.Late > 0 {
 			o.Class("once_handlers_of_another_type_subscribed_meanwhile")
+		}
+		if c.Readers > 0 {
+			o.Class("registry_polled_by_readers_meanwhile")
 		}
 	}
 	for round := 0; round < c.Rounds; round++ {
@@ -517,11 +524,28 @@ func runConc(c *ConcCase) *vkit.Outcome {
 				}
 			}()
 		}
+		var stopReaders atomic.Bool
+		var readers sync.WaitGroup
+		for r := 0; r < c.Readers; r++ {
+			readers.Add(1)
+			go func(r int) {
+				defer readers.Done()
+				start.Wait()
+				for i := 0; !stopReaders.Load(); i++ {
+					count(bus, (r+i)%2)
+					if i%64 == 63 {
+						runtime.Gosched()
+					}
+				}
+			}(r)
+		}
 		for int(ready.Load()) < len(c.Publishers) {
 			runtime.Gosched()
 		}
 		start.Done()
 		done.Wait()
+		stopReaders.Store(true)
+		readers.Wait()
 		bus.Wait()
 		if c.Late > 0 {
 			for i := range lateRuns {
